@@ -241,6 +241,8 @@ def pipeline(spec, rng, nprng, d, repo):
         H = r.load_distances_array(paths["distances_array"])
         E = io.EnergyReader(epath).load_single_energy_column("Potential")
         sq = transitions.SQRA(energies=E, volumes=V, distances=H, surfaces=S)
+        if spec.get("shared_tool"):
+            sq.get_rate_matrix(D=2 * spec["D"], T=1.5 * T)    # history: a scan over temperatures on the same loaded geometry comes first
         Q = sq.get_rate_matrix(D=spec["D"], T=T)
         Q, il = sq.cut_and_merge(Q, T=T, lower_limit=None, upper_limit=None)
         sparse.save_npz(rate_path, Q)
